@@ -6,7 +6,7 @@ import re
 import common
 from common import Rng
 
-PROP_FILES = ["theories/Properties/C08.v"]
+PROP_FILES = ["theories/Properties/C08.v", "theories/Properties/C08Epochs.v"]
 CAP = 100
 CORRUPT_FINAL = ["hash", "sig", "few", "genesis", "committee", "signers_len"]
 
@@ -32,9 +32,13 @@ def spec_valid(spec, first_block):
     return spec["corrupt"] == "none" and spec["epoch"] == 0
 
 
+def signer_of(spec):
+    return spec["signer"] if "signer" in spec else (1 if spec["corrupt"] == "committee" else 0)
+
+
 def spec_coq(i, spec):
     k = 0 if spec["kind"] == "pre" else 1
-    sched = 1 if spec["corrupt"] == "committee" else 0
+    sched = signer_of(spec)
     good = 1 if spec["corrupt"] in ("none", "committee") else 0
     return "(Bk %d %d %d %d %d %d)" % (spec["number"], i, k, spec["epoch"], sched, good)
 
@@ -91,8 +95,9 @@ def impl_obs(o):
 # ---------------------------------------------------------------------------
 # predicates on the implementation's behaviour (never consult the model)
 
-def predicate(c, o):
-    """Evaluates the statement of C08 on one run of the real code. Returns a list of failures."""
+def predicate(c, o, valid=None):
+    """Evaluates the statement of C08 on one run of the real code. Returns a list of failures.
+    `valid` (dynamic-schedule cases): which block specs passed a legitimate verification."""
     bad = []
     if "panic" in o:
         return [{"failed": "the engine manager panicked: " + str(o["panic"])[:300]}]
@@ -102,7 +107,8 @@ def predicate(c, o):
     if not o.get("init"):
         return bad
     fb = c["first_block"]
-    valid = [spec_valid(s, fb) for s in c["blocks"]]
+    if valid is None:
+        valid = [spec_valid(s, fb) for s in c["blocks"]]
     acc = {}            # this incarnation: number -> block idx accepted under it
     prev_sub = None     # number of the previously submitted block (all incarnations)
     prev = None         # previous (qf, ql, qn, pf, pn)
@@ -180,6 +186,379 @@ def predicate(c, o):
                     fail(f"get_block({n}) fell through to durable storage although {n} is not persisted (next {pn})")
         prev = (qf, ql, qn, pf, pn)
     return bad
+
+
+# ---------------------------------------------------------------------------
+# dynamic validator schedules: epoch map + updater task (Model/EpochSchedule.v)
+
+PREAMBLE_DYN = PREAMBLE + """From EC Require Import Model.EpochSchedule.
+Definition Dc (cp fb g : Z) : dcfg :=
+  {| dcap := Z.to_nat cp; dfirst_block := fb; dgenesis_sched := if g <? 0 then None else Some g |}.
+Definition Op (a b : Z) : option (Z * Z) := if a <? 0 then None else Some (a, b).
+"""
+
+
+def ste_coq(p):
+    return "(%s, %d)" % (st_coq(p), p[2] if len(p) > 2 else 0)
+
+
+def opt_pair_coq(p):
+    return "(Op (-1) 0)" if p is None else "(Op %d %d)" % (p[0], p[1])
+
+
+def dcase_coq(c):
+    ops = []
+    for o in c["ops"]:
+        k = o["op"]
+        if k == "queue":
+            ops.append("DH (Q %d %s)" % (o["id"], spec_coq(o["b"], c["blocks"][o["b"]])))
+        elif k == "poll":
+            ops.append("DH (Pl %d)" % o["id"])
+        elif k == "cancel":
+            ops.append("DH (HCancel %d)" % o["id"])
+        elif k == "persist":
+            ops.append("DHPersist [%s]" % "; ".join(ste_coq(p) for p in o["ps"]))
+        elif k == "gate":
+            ops.append("DH (HGate %s)" % common.coq_z(o["k"]))
+        elif k == "restart":
+            ops.append("DH HRestart")
+        elif k == "read":
+            ops.append("DH (HRead [%s])" % "; ".join(str(n) for n in o["ns"]))
+        elif k == "tick":
+            ops.append("DHTick")
+        elif k == "pending":
+            ops.append("DHPending %s" % opt_pair_coq(o["p"]))
+        elif k == "vs":
+            ops.append("DHVs %d %d" % (o["p"][0], o["p"][1]))
+        elif k == "vpayload":
+            ops.append("DHVPayload %d %d" % (o["n"], o["e"]))
+    dyn = c.get("dynamic", False)
+    vs = c.get("vs") or [0, c["first_block"]]
+    return "(Dc %d %d %s, %s, (%d, %d), %s, ([%s] : list dhop))" % (
+        c["cap"], c["first_block"], "(-1)" if dyn else "0", ste_coq(c["init"]), vs[0], vs[1],
+        opt_pair_coq(c.get("pending")), "; ".join(ops))
+
+
+def nxt_of(p):
+    return p[0] if p[1] is None else p[1] + 1
+
+
+def dimpl_obs(c, o):
+    """Observation of a run in the shape of Model.EpochSchedule.drun_case."""
+    base = impl_obs(o)
+    if base == [0]:
+        return base
+    dyn = c.get("dynamic", False)
+    fb = c["first_block"]
+    env = c["init"]
+    waited = dyn and fb > 0 and nxt_of(env) < fb
+
+    def calls(cs):
+        return [[k, (-1 if (k == 1 and waited) else int(n))] for (k, n) in cs]
+
+    def mp(m):
+        return [[e, cid, int(a), [] if x is None else [int(x)]] for (e, cid, a, x) in m]
+    res = [1, [calls(o["start"]["calls"]), mp(o["start"]["map"])]]
+    for op, out, b in zip(c["ops"], o["ops"], base[1:]):
+        if op["op"] == "persist":
+            env = op["ps"][-1]
+        if op["op"] == "restart" and out["res"] == [1]:
+            waited = dyn and fb > 0 and nxt_of(env) < fb
+        res.append([b, calls(out["calls"]), mp(out["map"]), out["vres"]])
+    return res
+
+
+def dyn_valid(c, o):
+    """Which block specs passed a legitimate verification: checked against the schedule the real
+    manager reported (validator_schedule(e)) just before the queue_block call. Returns (valid, failures,
+    cross) where cross counts accepted blocks whose number lies outside the [activation, expiration]
+    range of their certificate's epoch (queue_block does not check this; reported, not judged here)."""
+    fb = c["first_block"]
+    valid = [False] * len(c["blocks"])
+    bad, cross = [], []
+    if not o.get("init"):
+        return valid, bad, cross
+    cur = o["start"]["map"]
+    for k, (op, out) in enumerate(zip(c["ops"], o["ops"])):
+        if op["op"] == "queue":
+            spec = c["blocks"][op["b"]]
+            if spec["kind"] == "pre":
+                legit = spec["corrupt"] == "none" and spec["number"] < fb
+            else:
+                ent = [m for m in cur if m[0] == spec["epoch"]]
+                legit = spec["corrupt"] == "none" and len(ent) == 1 and ent[0][1] == signer_of(spec)
+                if legit and out["res"] in ([0], [1]):
+                    a, x = int(ent[0][2]), (None if ent[0][3] is None else int(ent[0][3]))
+                    if spec["number"] < a or (x is not None and spec["number"] > x):
+                        cross.append({"op_index": k, "number": spec["number"], "cert_epoch": spec["epoch"],
+                                      "epoch_range": [a, x], "map": cur})
+            if legit:
+                valid[op["b"]] = True
+            elif out["res"] in ([0], [1]):
+                bad.append({"failed": f"queue_block accepted block {spec} that does not verify against the stored schedule of its epoch (map {cur})",
+                            "op_index": k, "op": op})
+        cur = out["map"]
+    return valid, bad, cross
+
+
+def map_predicate(c, o):
+    """Epoch map: consecutive epochs, contiguous disjoint ranges, pruning only behind the durable head,
+    verify_payload's epoch check agrees with the ranges. Engine answers of the generator are sane
+    (pending activation above the head), so these must hold on every run."""
+    bad = []
+    if not o.get("init"):
+        return bad
+
+    def check(m, k, op):
+        def fail(msg):
+            bad.append({"failed": msg, "op_index": k, "op": op, "map": m})
+        if len(m) > 3:
+            fail("epoch map holds more than three schedules")
+        for a, b in zip(m, m[1:]):
+            if b[0] != a[0] + 1:
+                fail(f"epochs {a[0]} and {b[0]} are not consecutive")
+            if a[3] is None or int(a[3]) + 1 != int(b[2]):
+                fail(f"epoch {a[0]} expires at {a[3]} but epoch {b[0]} activates at {b[2]}")
+            if int(a[2]) >= int(b[2]):
+                fail(f"activation of epoch {b[0]} not after that of epoch {a[0]}")
+        if m and m[-1][3] is not None:
+            fail(f"last epoch {m[-1][0]} has an expiration")
+    check(o["start"]["map"], -1, None)
+    cur = o["start"]["map"]
+    for k, (op, out) in enumerate(zip(c["ops"], o["ops"])):
+        if len(bad) > 6:
+            break
+        m = out["map"]
+        check(m, k, op)
+        if not (op["op"] == "restart" and out["res"] == [1]):
+            for ent in cur:
+                if all(x[0] != ent[0] for x in m):
+                    head = int(out["head"])
+                    if ent[3] is None or int(ent[3]) >= head:
+                        bad.append({"failed": f"epoch {ent[0]} (range [{ent[2]},{ent[3]}]) pruned while the durable head is {head}",
+                                    "op_index": k, "op": op})
+        if op["op"] == "vpayload":
+            n, e = op["n"], op["e"]
+            holders = [x[0] for x in m if int(x[2]) <= n and (x[3] is None or n <= int(x[3]))]
+            want = [0] if holders[:1] == [e] else [1]
+            if out["vres"] != want:
+                bad.append({"failed": f"verify_payload({n}, epoch {e}) answered {out['vres']} but the ranges say {want}",
+                            "op_index": k, "op": op, "map": m})
+        cur = m
+    return bad
+
+
+def gen_dyn_case(rng):
+    """Dynamic schedule: genesis without validators_schedule; the engine's answers follow a 'true'
+    epoch timeline chosen here; blocks are certified by the committee of their epoch, by a wrong
+    committee, for an unknown epoch, or for a neighbouring epoch (number outside that epoch's range)."""
+    base = rng.choice([0, 0, 0, 1 << 32])
+    fb = base + rng.choice([0, 0, 3, 5])
+    e0 = rng.choice([0, 0, 0, 1, 2, 5])
+    # true timeline: epoch e0 + k activates at acts[k]; committee ids differ between neighbours
+    acts = [fb]
+    coms = [rng.below(3)]
+    for _ in range(12):
+        acts.append(acts[-1] + rng.range(2, 7))
+        coms.append((coms[-1] + rng.range(1, 2)) % 3)
+
+    def epoch_of(n):       # index into acts/coms
+        k = 0
+        while k + 1 < len(acts) and acts[k + 1] <= n:
+            k += 1
+        return k
+    z = rng.below(10)
+    wait = False
+    if z < 5 or fb == base:
+        init = [fb, None, 0] if z < 3 else None
+        if init is None:
+            h = fb + rng.below(6)
+            init = [fb, h, e0 + epoch_of(h)]
+    elif z < 8:
+        a = base + rng.below(2)
+        init = [a, None, 0] if rng.chance(1, 2) else [a, a + rng.below(max(1, fb - a - 1)), 0]
+        if nxt_of(init) >= fb:
+            init = [base, None, 0]
+        wait = True
+        e0 = 0
+    else:
+        h = fb + rng.range(3, 14)
+        init = [fb + rng.below(3), h, e0 + epoch_of(h)]
+    c = {"first_block": fb, "cap": CAP, "init": init, "blocks": [], "ops": [], "profile": "dynamic", "dynamic": True}
+    index = {}
+
+    def blk(kind, number, variant=0, epoch=0, corrupt="none", signer=0):
+        key = (kind, number, variant, epoch, corrupt, signer)
+        if key not in index:
+            index[key] = len(c["blocks"])
+            d = {"kind": kind, "number": number, "variant": variant, "epoch": epoch, "corrupt": corrupt}
+            if kind == "final":
+                d["signer"] = signer
+            c["blocks"].append(d)
+        return index[key]
+    t = Tracker(init[:2])
+    head0 = t.pn - 1 if init[1] is not None else fb
+    k0 = 0 if wait else (epoch_of(init[1]) if init[1] is not None and init[1] >= fb else 0)
+    if init[1] is None or init[1] < fb:
+        e0 = 0 if True else e0
+    # the generator's estimate of the updater: cur = index of the newest epoch in the map
+    st = {"cur": k0, "running": not wait, "vs": None, "pending": None}
+    c["vs"] = [coms[k0], acts[k0]]
+    st["vs"] = list(c["vs"])
+    c["pending"] = None
+    st["pending"] = None
+    ebase = (init[2] if (init[1] is not None and init[1] >= fb) else 0) - k0   # epoch number = ebase + index
+
+    def est_tick():
+        if not st["running"] or not t.alive:
+            return
+        head = t.pn - 1 if t.pn > 0 else 0
+        if head > acts[st["cur"]] and st["pending"] is not None and st["cur"] + 2 < len(acts):
+            st["cur"] += 1
+    nid = [0]
+
+    def queue(b):
+        nid[0] += 1
+        c["ops"].append({"op": "queue", "id": nid[0], "b": b})
+        spec = c["blocks"][b]
+        ok = spec["corrupt"] == "none" and (spec["kind"] == "pre" and spec["number"] < fb or spec["kind"] == "final")
+        if ok:
+            if spec["number"] <= t.qn:
+                t.push(spec["number"])
+            else:
+                t.pending[nid[0]] = spec["number"]
+
+    def good(n, variant=0):
+        if n < fb:
+            return blk("pre", n, variant)
+        k = epoch_of(n)
+        return blk("final", n, variant, ebase + k, "none", coms[k])
+
+    def env_head():
+        return t.env[1] if t.env[1] is not None else max(t.env[0] - 1, 0)
+
+    def sane_pending(cur):
+        # the engine's pending schedule activates after the head it is asked about
+        k = cur + 1
+        return [coms[k], acts[k]] if k < len(acts) and acts[k] > env_head() else None
+
+    def set_pending():
+        want = sane_pending(st["cur"])
+        if want != st["pending"]:
+            st["pending"] = want
+            c["ops"].append({"op": "pending", "p": want})
+    c["pending"] = sane_pending(k0) if rng.chance(5, 6) else None
+    st["pending"] = c["pending"]
+    if st["running"]:
+        est_tick()
+    nops = rng.range(15, 80)
+    while len(c["ops"]) < nops:
+        z = rng.below(100)
+        if z < 34:
+            queue(good(t.qn))
+        elif z < 38:
+            queue(good(t.qn + rng.range(1, 3)))
+        elif z < 46:
+            # certificate of a neighbouring epoch for this number (committee of that epoch signs)
+            n = t.qn + rng.below(2)
+            if n >= fb:
+                k = epoch_of(n)
+                k2 = max(0, k + rng.choice([-1, -1, 1, -2]))
+                if k2 != k and k2 < len(acts):
+                    queue(blk("final", n, 0, ebase + k2, "none", coms[k2]))
+        elif z < 52:
+            n = t.qn + rng.below(2)
+            if n >= fb:
+                k = epoch_of(n)
+                y = rng.below(4)
+                if y == 0:      # right epoch, wrong committee
+                    queue(blk("final", n, 0, ebase + k, "none", (coms[k] + 1) % 3))
+                elif y == 1:    # far future / far past epoch: not in the map
+                    queue(blk("final", n, 0, ebase + k + rng.choice([3, 4, 9]), "none", coms[k]))
+                elif y == 2:
+                    queue(blk("final", n, 0, ebase + k, rng.choice(CORRUPT_FINAL[:4] + ["signers_len"]), coms[k]))
+                else:
+                    queue(blk("pre", n, 0, 0, "none"))
+            else:
+                queue(blk("pre", n, 0, 0, "bad"))
+        elif z < 58:
+            if t.pending:
+                i = rng.choice(sorted(t.pending))
+                c["ops"].append({"op": "poll", "id": i})
+                if t.pending[i] <= t.qn:
+                    t.push(t.pending[i])
+                    del t.pending[i]
+        elif z < 70:
+            # durable range moves; the head's certificate carries the epoch of its number
+            n = t.nxt(t.env)
+            hi = max(n, t.qn)
+            y = rng.below(10)
+            if wait and not st["running"]:
+                new_next = fb if rng.chance(2, 3) else rng.range(n, fb - 1) if fb - 1 >= n else fb
+            elif y < 6:
+                new_next = rng.range(n, hi)
+            elif y < 8:
+                new_next = hi + rng.range(1, 4)
+            else:
+                new_next = hi
+            first = t.env[0]
+            if rng.chance(1, 5):
+                first = min(first + rng.range(1, 3), new_next)
+            if new_next <= first:
+                p = [max(first, new_next), None, 0]
+            else:
+                last = new_next - 1
+                p = [first, last, (ebase + epoch_of(last)) if last >= fb else 0]
+            t.persist(p[:2])
+            c["ops"].append({"op": "persist", "ps": [p]})
+            if st["pending"] is not None and st["pending"][1] <= env_head():
+                st["pending"] = None      # no longer pending at this head
+                c["ops"].append({"op": "pending", "p": None})
+            if wait and not st["running"] and t.nxt(p) >= fb and t.alive:
+                st["running"] = True
+                est_tick()
+            if p[1] is not None and p[1] >= fb:
+                k = epoch_of(p[1])
+                want = [coms[k], acts[k]]
+                if want != st["vs"]:
+                    st["vs"] = want
+                    c["ops"].append({"op": "vs", "p": want})
+        elif z < 86:
+            set_pending()
+            c["ops"].append({"op": "tick"})
+            est_tick()
+        elif z < 92:
+            n = rng.choice([acts[st["cur"]], acts[st["cur"]] - 1, acts[min(st["cur"] + 1, len(acts) - 1)], t.qn, max(0, t.qn - 4)])
+            k = epoch_of(max(n, fb))
+            c["ops"].append({"op": "vpayload", "n": max(0, n), "e": max(0, ebase + k + rng.choice([0, 0, 0, -1, 1]))})
+        elif z < 94:
+            c["ops"].append({"op": "gate", "k": rng.choice([0, 1, -1, -1])})
+        elif z < 97:
+            if not (t.env[1] is not None and t.env[0] > t.env[1]):
+                h = t.env[1]
+                ncur = epoch_of(h) if h is not None and h >= fb else 0
+                want = [coms[ncur], acts[ncur]]
+                if want != st["vs"]:
+                    st["vs"] = want
+                    c["ops"].append({"op": "vs", "p": want})
+                want = sane_pending(ncur)
+                if want != st["pending"]:
+                    st["pending"] = want
+                    c["ops"].append({"op": "pending", "p": want})
+                c["ops"].append({"op": "restart"})
+                t.restart()
+                if t.nxt(t.env) >= fb or fb == 0:
+                    st["cur"] = ncur
+                    st["running"] = True
+                    wait = False
+                    est_tick()
+                else:
+                    st["running"] = False
+                    wait = True
+                    st["cur"] = 0
+        else:
+            c["ops"].append({"op": "read", "ns": [max(0, t.qn - rng.range(0, 6)) for _ in range(2)]})
+    return c
 
 
 # ---------------------------------------------------------------------------
@@ -401,6 +780,22 @@ def gen_case(rng, profile):
     return c
 
 
+OBSERVATIONS = (
+    "Epoch range not checked by queue_block (observation, not a violation of C08): queue_block verifies a FinalV2 block's "
+    "certificate against the schedule stored under the CERTIFICATE's epoch (b.epoch()) and never compares b.number() with "
+    "that epoch's [activation, expiration] range. So while epoch e is still in epoch_schedule (until two later epochs have "
+    "been inserted and the loop prunes it, i.e. activation(e+2) < durable head), a block whose number belongs to epoch e+1 "
+    "(or later) is accepted through queue_block - from a peer or any caller - if it carries a valid certificate of epoch e's "
+    "committee with view.epoch = e; symmetrically a number of epoch e's range is accepted with a certificate of the already "
+    "inserted epoch e+1. The competing block of the right committee arriving later is silently dropped (number taken). "
+    "verify_payload on the proposal path does check epoch_for_block(number) == epoch (theorem C08_verify_payload_epoch), so "
+    "honest replicas do not vote for such a block. The safety of the epoch hand-over therefore rests on the engine contract "
+    "rather than on the store: honest validators of epoch e must learn the pending schedule before block activation(e+1) is "
+    "proposed (fetch_schedule_interval much smaller than the announcement lead time), and former committees must stay honest "
+    "until their epoch is pruned. Witness on the model: theorem C08_epoch_range_not_checked; replay on the real code: "
+    "corpus/C08-epoch-cross.json (run first on every check); the run counts such accepts in epoch_range_unchecked_accepts.")
+
+
 def run_impl_all(cases):
     """run_impl, re-running the cases a dying harness process left behind."""
     outs = common.run_impl("blockstore", cases, "dev", timeout=1200)
@@ -496,7 +891,7 @@ def run(rep):
     translator, gen_files = rust2coq.step(["numbers", "block_store"], ["theories/Properties/C08Gen.v"], broken)
     po = common.proof_obligations(PROP_FILES + gen_files)
     if not po["ok"]:
-        broken.append("Coq obligations of Properties/C08.v" + (", C08Gen.v" if gen_files else "") + ": " + (po["log_tail"] or str(po["hygiene_problems"] or po["bad_axioms"])))
+        broken.append("Coq obligations of Properties/C08.v, C08Epochs.v" + (", C08Gen.v" if gen_files else "") + ": " + (po["log_tail"] or str(po["hygiene_problems"] or po["bad_axioms"])))
     pins = glue_pins()
     if pins:
         broken.append("glue: " + "; ".join(pins))
@@ -509,15 +904,30 @@ def run(rep):
         cases.append(gen_case(rng.fork(), "backlog"))
     for i in range(nshort + nlong):
         cases.append(gen_case(rng.fork(), "long" if i % ((nshort + nlong) // nlong) == 0 else "short"))
+    # dynamic validator schedules: epoch map + updater task driven by scripted engine answers and clock ticks
+    for i in range(45 if tier == "quick" else 1800):
+        cases.append(gen_dyn_case(rng.fork()))
     outs = run_impl_all(cases)
-    coq_cases, pred_fail, kinds, feats = [], [], {}, {}
+    coq_cases, dyn_cases, pred_fail, kinds, feats = [], [], [], {}, {}
     nontrivial = set()
     nops = 0
     npred_cases = 0
+    cross_accepts, cross_sample = 0, None
+    nstatic_via_dyn = 0
     for i, (c, o) in enumerate(zip(cases, outs)):
         if "skipped" in o:
             raise common.MachineryError(f"harness did not run case {i}")
-        pf = predicate(c, o)
+        if c.get("dynamic"):
+            if "panic" in o or "crash" in o:
+                pf = predicate(c, o)
+            else:
+                valid, bad, cross = dyn_valid(c, o)
+                pf = bad + predicate(c, o, valid) + map_predicate(c, o)
+                cross_accepts += len(cross)
+                if cross and cross_sample is None:
+                    cross_sample = {"case_index": i, **cross[0]}
+        else:
+            pf = predicate(c, o)
         for b in pf[:3]:
             if len(pred_fail) < 40:
                 pred_fail.append({"case": c, **b})
@@ -525,7 +935,14 @@ def run(rep):
             # already a violation with a concrete input; the model is not consulted for it
             npred_cases += 1
             continue
-        coq_cases.append((i, case_coq(c), common.to_obsv(impl_obs(o))))
+        if c.get("dynamic"):
+            dyn_cases.append((i, dcase_coq(c), common.to_obsv(dimpl_obs(c, o))))
+        else:
+            coq_cases.append((i, case_coq(c), common.to_obsv(impl_obs(o))))
+            if nstatic_via_dyn < (20 if tier == "quick" else 400) and len(c["ops"]) <= 80:
+                # the static-schedule manager is also the dynamic model with a genesis schedule
+                nstatic_via_dyn += 1
+                dyn_cases.append((i, dcase_coq(c), common.to_obsv(dimpl_obs(c, o))))
         fs = features(c, o)
         for f in fs:
             feats[f] = feats.get(f, 0) + 1
@@ -547,15 +964,35 @@ def run(rep):
         broken.append("model evaluation failed: " + str(e)[-300:])
     if mm:
         broken.append(f"correspondence vh blockstore vs Model.BlockStore.run_case: {len(mm)} disagreeing cases")
+    dmm = {}
+    try:
+        if dyn_cases:
+            dmm, _ = common.run_model_cases("C08d", PREAMBLE_DYN, "Model.EpochSchedule.drun_case", dyn_cases,
+                                            shard_size=max(4, len(dyn_cases) // 16 + 1) if tier == "quick" else 40,
+                                            timeout=1500)
+    except RuntimeError as e:
+        if not pred_fail:
+            raise common.MachineryError("model evaluation failed: " + str(e)[-1500:])
+        broken.append("model evaluation failed: " + str(e)[-300:])
+    if dmm:
+        broken.append(f"correspondence vh blockstore vs Model.EpochSchedule.drun_case: {len(dmm)} disagreeing cases")
+        if not mm:
+            mm = dmm
     searched = 0
     if broken and not pred_fail:
         # violation search: a bigger run of the predicates on the implementation alone
-        extra = [gen_case(rng.fork(), "long" if i % 5 == 0 else "short") for i in range(600 if tier == "quick" else 6000)]
+        extra = [gen_dyn_case(rng.fork()) if i % 3 == 0 else gen_case(rng.fork(), "long" if i % 5 == 0 else "short")
+                 for i in range(600 if tier == "quick" else 6000)]
         for c, o in zip(extra, run_impl_all(extra)):
             searched += 1
             if "skipped" in o:
                 continue
-            for b in predicate(c, o):
+            if c.get("dynamic") and "panic" not in o and "crash" not in o:
+                valid, bad, _ = dyn_valid(c, o)
+                pf = bad + predicate(c, o, valid) + map_predicate(c, o)
+            else:
+                pf = predicate(c, o)
+            for b in pf:
                 pred_fail.append({"case": c, **b})
             if pred_fail:
                 break
@@ -571,25 +1008,30 @@ def run(rep):
         rep.violation("C08 no longer shown to hold: " + "; ".join(broken)[:600],
                       {"broken": broken, "first_disagreement": first, "searched_cases": searched}, found_input=False)
     cov.update({
-        "obligations": po["obligations"] + 2,
-        "discharged": po["discharged"] + (0 if mm else 1) + (0 if pins else 1),
-        "checker_cmd": "make -C coq theories/Properties/C08.vo + coqc on generated cases_*.v (vm_compute of Model.BlockStore.run_case) + textual pin of the two queue_block call sites",
+        "obligations": po["obligations"] + 3,
+        "discharged": po["discharged"] + (0 if (mm and mm is not dmm) else 1) + (0 if dmm else 1) + (0 if pins else 1),
+        "checker_cmd": "make -C coq theories/Properties/{C08,C08Epochs,C08Gen}.vo + coqc on generated cases_*.v (vm_compute of Model.BlockStore.run_case and Model.EpochSchedule.drun_case) + textual pin of the two queue_block call sites",
         "trusted_base": common.standard_trusted_base([
             "block verification is abstract in the model: the verdict of FinalBlock::verify / verify_pregenesis_block on the real signed object is compared with the label the generator gave the block (valid / kind of corruption)",
             "H-ATOM: closures of watch::Sender::send_if_modified run atomically; the harness polls queue_block futures in scripted order on a current_thread runtime, so the finer Wake/Push split of multi-threaded callers is covered by the theorems only",
-            "H-ENG: the scripted EngineInterface of the harness (durable range watch, queue_next_block log with permits) stands for the persistence layer",
+            "H-ENG: the scripted EngineInterface of the harness (durable range watch, queue_next_block log with permits, scripted get_validator_schedule / get_pending_validator_schedule answers, ManualClock ticks of fetch_schedule_interval) stands for the execution layer; theorems assume published ranges are ranges and a pending schedule activates after the positive block it was asked about",
             "glue in gossip/runner.rs and bft block.rs is pinned textually, not executed",
         ] + translator["trusted"]),
         "theorems": po["theorems"], "axioms": po["axioms"],
         "translator": translator,
-        "evaluations": len(coq_cases),
+        "evaluations": len(coq_cases) + len(dyn_cases),
+        "dynamic_schedule_cases": len(dyn_cases) - nstatic_via_dyn,
+        "static_cases_also_run_through_dynamic_model": nstatic_via_dyn,
+        "epoch_range_unchecked_accepts": cross_accepts,
+        "epoch_range_unchecked_sample": cross_sample,
+        "observations": OBSERVATIONS,
         "operations": nops,
         "distinct_nontrivial": len(nontrivial),
-        "rule": "operation lists (8-70 ops, every ~8th 130-260 ops to cross CACHE_CAPACITY) over the real EngineManager+runner: in-order / ahead (parked) / old / duplicate-variant / invalid queue_block calls (6 certificate corruptions, unknown epoch, bad or out-of-range external justification), explicit polls and cancels of parked calls, durable-range updates (completion, lagging, overtaking jumps, far jumps, pruning, backfill, regress, coalesced pairs, malformed), gated queue_next_block, restarts, reads; block numbers offset by 0 / 2^32 / 2^63-500. non-trivial = distinct op list in which >=3 blocks were accepted, >=1 submitted and >=2 further features (parked/resumed call, rejection, restart, durable read, backlog over capacity, runner bail) occurred, measured on the implementation's output",
+        "rule": "dynamic-schedule runs (genesis without validators_schedule; 15-80 ops): a true epoch timeline (epochs of 2-6 blocks, three committees) drives the scripted engine answers; ops additionally tick the updater's clock, change the pending / current schedule answers, publish durable heads carrying their epoch, call verify_payload around epoch boundaries, and queue blocks certified by the committee of their epoch, by a wrong committee, for an epoch not in the map, or by a neighbouring epoch's committee (number outside that epoch's range); restarts rebuild the map; a third of these start below first_block (pre-genesis wait). Static-schedule runs: operation lists (8-70 ops, every ~8th 130-260 ops to cross CACHE_CAPACITY) over the real EngineManager+runner: in-order / ahead (parked) / old / duplicate-variant / invalid queue_block calls (6 certificate corruptions, unknown epoch, bad or out-of-range external justification), explicit polls and cancels of parked calls, durable-range updates (completion, lagging, overtaking jumps, far jumps, pruning, backfill, regress, coalesced pairs, malformed), gated queue_next_block, restarts, reads; block numbers offset by 0 / 2^32 / 2^63-500. non-trivial = distinct op list in which >=3 blocks were accepted, >=1 submitted and >=2 further features (parked/resumed call, rejection, restart, durable read, backlog over capacity, runner bail) occurred, measured on the implementation's output",
         "input_distribution": {"op_kinds": kinds, "features_cases": feats, "cases": len(cases)},
         "samples": [{"case": cases[i], "impl": outs[i], "model_obs": samp.get(i)} for i in sample_ids],
-        "correspondence_mismatches": len(mm), "predicate_failures": len(pred_fail), "cases_failing_predicates": npred_cases,
-        "partial": "dynamic validator schedules (the epoch-schedule updater task) are not driven: the epoch map is fixed per run (static genesis schedule) and arbitrary in the theorems; block-number overflow at 2^64-1 is out of scope; multi-threaded interleavings finer than one poll rely on H-ATOM; peer_block_number_checked is a textual pin",
+        "correspondence_mismatches": len(mm) + (len(dmm) if dmm is not mm else 0), "predicate_failures": len(pred_fail), "cases_failing_predicates": npred_cases,
+        "partial": "block-number / epoch-number overflow at 2^64-1 is out of scope; multi-threaded interleavings finer than one poll rely on H-ATOM; peer_block_number_checked is a textual pin; the updater task's read of block_store.persisted right after its pre-genesis wait races with the watcher task (stale or fresh head): the model takes the fresh value, the generator keeps the two readings equal in epoch and the head argument of that one get_validator_schedule call is not compared; execution-layer answers violating the engine contract (pending activation not after the head, activation 0 which makes the task panic on prev().unwrap()) are modelled but not generated",
     })
     rep.assumptions += ["H-ATOM", "H-ENG", "H-SIG (verdict of certificate verification taken from the real code, abstract in the model)"]
 
